@@ -78,6 +78,9 @@ class TransportAioHttpClient(AbstractMessagingTransport):
             logger().debug('Asyncio task canceled: incoming_data_listener')
         except Exception:
             self._incoming_frame_queue.put_nowait(RSocketTransportError())
+        finally:
+            # the receiver learns that no more frames will arrive, however the websocket ended
+            self._incoming_frame_queue.put_nowait(RSocketTransportError())
 
     async def send_frame(self, frame: Frame):
         await self._connection_ready.wait()
@@ -111,6 +114,8 @@ class TransportAioHttpWebsocket(AbstractMessagingTransport):
                     self._incoming_frame_queue.put_nowait(frame)
         except asyncio.CancelledError:
             logger().debug('Asyncio task canceled: aiohttp_handle_incoming_ws_messages')
+        finally:
+            self._incoming_frame_queue.put_nowait(RSocketTransportError())
 
     async def send_frame(self, frame: Frame):
         with wrap_transport_exception():
